@@ -51,15 +51,17 @@ Theorem C01_range_op_spec : forall k z, accept_op k z = in_range k z.
 Proof. exact range_op_spec. Qed.
 Print Assumptions C01_range_op_spec.
 
-(* ... except the map-key variant for uint32, whose immediate 0xFFFFFFFF is sign-extended: refuted by 2^32
-   (known finding KF-C01-u32-mapkey-wrap) *)
-Theorem C01_range_map_key_u32_refuted : exists z, in_range U32 z = false /\ accept_map_key U32 z = true.
-Proof. exact range_map_key_u32_refuted. Qed.
-Print Assumptions C01_range_map_key_u32_refuted.
-
-Theorem C01_range_map_key_spec_partial : forall k z, k <> U32 -> accept_map_key k z = in_range k z.
+(* the map-key opcodes use the same checks (map_key_u32 since fix afd5482) *)
+Theorem C01_range_map_key_spec : forall k z, accept_map_key k z = in_range k z.
 Proof. exact range_map_key_spec. Qed.
-Print Assumptions C01_range_map_key_spec_partial.
+Print Assumptions C01_range_map_key_spec.
+
+(* why range_unsigned_CX could not serve for uint32: its 32-bit immediate 0xFFFFFFFF is sign-extended (the defect
+   repaired by afd5482; witness 2^32) *)
+Theorem C01_range_unsigned_imm32_pitfall :
+  exists z, in_range U32 z = false /\ in_range U64 z = true /\ range_unsigned (imax U32) (enc64 z) = true.
+Proof. exact range_unsigned_imm32_pitfall. Qed.
+Print Assumptions C01_range_unsigned_imm32_pitfall.
 
 Example C01_range_nonvacuous : accept_op I8 (-128) = true /\ accept_op U32 4294967295 = true /\ accept_op U8 256 = false.
 Proof. exact range_accepts_something. Qed.
@@ -142,10 +144,12 @@ Theorem C01_ptrptr_null_refuted :
   std_unmarshal opts_std (TPtr (TPtr TUnm)) (b "null") VNil = Ok VNil.
 Proof. exact ptrptr_null_refuted. Qed.
 
-Theorem C01_u32_map_key_refuted :
-  sonic_unmarshal h1 Jit opts_std (TMap (KInt U32) (TInt I64)) (b "{""4294967296"":1}") VNil = Ok (VMap [(VInt 0, VInt 1)]) /\
-  std_unmarshal opts_std (TMap (KInt U32) (TInt I64)) (b "{""4294967296"":1}") VNil = Err.
-Proof. exact u32_map_key_refuted. Qed.
+(* repaired (afd5482): a uint32 map key above 2^32-1 is rejected by both *)
+Theorem C01_u32_map_key_agree :
+  sonic_unmarshal h1 Jit opts_std (TMap (KInt U32) (TInt I64)) (b "{""4294967296"":1}") VNil = Err /\
+  std_unmarshal opts_std (TMap (KInt U32) (TInt I64)) (b "{""4294967296"":1}") VNil = Err /\
+  sonic_unmarshal h1 Jit opts_std (TMap (KInt U32) (TInt I64)) (b "{""4294967295"":1}") VNil = Ok (VMap [(VInt 4294967295, VInt 1)]).
+Proof. exact u32_map_key_agree. Qed.
 
 Theorem C01_quoted_string_refuted :
   let t := TStruct (qfld "s" TStr FNil) in
